@@ -329,7 +329,9 @@ func (e *Engine) newErrorOnce(name string) IfaceV {
 // store or map access to them must happen with at least one mutex held.
 func (e *Engine) recordAccess(st *State, p Ptr, write bool, pos token.Pos) {
 	if _, ok := st.ghost[fmt.Sprintf("watch:%d", p.obj)]; !ok {
-		return
+		if _, okw := st.ghost[fmt.Sprintf("watchw:%d", p.obj)]; !okw || !write {
+			return
+		}
 	}
 	if len(st.lockset) == 0 {
 		kind := "read"
